@@ -6,11 +6,13 @@ package cache
 // They give the harness in core/stores/sqlc access to two package-private mechanisms:
 //   - the cleaner's package-level timing wheel: swapped for a wheel on a harness-owned ticker, so that the
 //     retries of failed deletes are driven tick by tick and joined deterministically;
-//   - the jitter source of a cacheNode's mathx.Unstable, so that the +/-5% draw is a harness input.
+//   - the jitter source of a cacheNode's mathx.Unstable, so that the +/-5% draw is a harness input;
+//   - the dispatch decision of a cacheCluster (which node a key is sent to), read-only.
 
 import (
 	"math/rand"
 	"reflect"
+	"strconv"
 	"time"
 	"unsafe"
 
@@ -81,14 +83,67 @@ func (v *VerifC06Cleaner) Close() {
 	v.tw.Stop()
 }
 
-// VerifC06SetJitterSource makes the node's expiry jitter draw from src.
-func VerifC06SetJitterSource(c Cache, src rand.Source) {
-	node, ok := c.(cacheNode)
-	if !ok {
-		panic("verif: not a cacheNode")
+// verifC06Nodes returns the cacheNodes behind c: c itself, or — for a cacheCluster — the nodes its
+// dispatcher hands out (found by probing keys until `want` distinct nodes have shown up).
+func verifC06Nodes(c Cache, want int) []cacheNode {
+	switch x := c.(type) {
+	case cacheNode:
+		return []cacheNode{x}
+	case cacheCluster:
+		seen := map[string]cacheNode{}
+		for i := 0; len(seen) < want; i++ {
+			if i > 2000000 {
+				panic("verif: dispatcher does not reach every node")
+			}
+			n, ok := x.dispatcher.Get("\x00verif-probe-" + strconv.Itoa(i))
+			if !ok {
+				panic("verif: empty dispatcher")
+			}
+			cn := n.(cacheNode)
+			seen[cn.rds.Addr] = cn
+		}
+		out := make([]cacheNode, 0, len(seen))
+		for _, cn := range seen {
+			out = append(out, cn)
+		}
+		return out
 	}
-	u := node.unstableExpiry
-	f := reflect.ValueOf(&u).Elem().FieldByName("r")
-	rp := *(**rand.Rand)(unsafe.Pointer(f.UnsafeAddr()))
-	*rp = *rand.New(src)
+	panic("verif: unknown Cache implementation")
+}
+
+// VerifC06SetJitterSource makes the expiry jitter of every node behind c draw from src.
+func VerifC06SetJitterSource(c Cache, src rand.Source, nodes int) {
+	for _, node := range verifC06Nodes(c, nodes) {
+		u := node.unstableExpiry
+		f := reflect.ValueOf(&u).Elem().FieldByName("r")
+		rp := *(**rand.Rand)(unsafe.Pointer(f.UnsafeAddr()))
+		*rp = *rand.New(src)
+	}
+}
+
+// VerifC06NodeAddr observes the dispatch decision for key: the address of the Redis the key is sent to
+// (the ring of a cacheCluster is built from pointer values, so this differs from process to process).
+func VerifC06NodeAddr(c Cache, key string) string {
+	switch x := c.(type) {
+	case cacheNode:
+		return x.rds.Addr
+	case cacheCluster:
+		n, ok := x.dispatcher.Get(key)
+		if !ok {
+			panic("verif: empty dispatcher")
+		}
+		return n.(cacheNode).rds.Addr
+	}
+	panic("verif: unknown Cache implementation")
+}
+
+// VerifC06Kind tells which implementation cache.New chose.
+func VerifC06Kind(c Cache) string {
+	switch c.(type) {
+	case cacheNode:
+		return "node"
+	case cacheCluster:
+		return "cluster"
+	}
+	return "?"
 }
